@@ -700,8 +700,17 @@ Fixpoint canon (f : frame) : frame :=
   | FSet l => FSet (map canon l)
   | _ => f
   end.
+(** SSCAN: members of one page come in HashSet / hash order - sorted (mirrors srv.rs canon_reply) *)
+Definition canon_sscan (f : frame) : frame :=
+  match f with
+  | FArray [c; FArray l] =>
+      if forallb (fun x => match x with FBulk _ => true | _ => false end) l
+      then FArray [c; FArray (map FBulk (bsort (bulk_args l)))] else f
+  | _ => f
+  end.
 Definition canon_reply (name : bytes) (f : frame) : frame :=
   let f := canon_streams name (canon f) in
+  let f := if beq name (bs "SSCAN") then canon_sscan f else f in
   if beq name (bs "TTL") || beq name (bs "PTTL") then
     match f with FInt n => if 0 <? n then FInt 1 else f | _ => f end
   else f.
